@@ -25,11 +25,17 @@ CLAIMED = {
         technique="deterministic simulation: same engine as C44 with the operator's signal injected at tape-chosen points, slow/stalled browser handshakes and a stalled-request-handler fault steered into the shutdown window; admission/handler/close events are checked over the recorded history, plus a leaked-goroutine oracle at the end of the bubble",
         text="Seeded exploration of connection/registration/write-loop/heartbeat/shutdown interleavings with exact replay. Checks that close() returns only when every started handler has exited, that nothing is admitted after close began, that shutdown completes without xmain's forced exit, no panic and no leaked d2cli goroutine. Sampling, not proof.",
         note="Trusted: as C44. The order of ws.admitted/close.begin trace events is the lock order because both are emitted under the client mutex."),
+    "C08": dict(engine="pipesim", cat="exploration", ref="5.5",
+        technique="deterministic simulation of caller tasks: several compilations of the same and of other inputs run as tasks whose stages a seeded scheduler interleaves in one process, under a runtime seam that makes every map iteration order and select choice a function of the seed; results are compared across executions, seeds, interleavings and against a separate reference process",
+        text="Seeded exploration over the repository's script corpus and generated programs: each compiled repeatedly, interleaved with other compilations, under adversarially varied map iteration orders, and in a second process. Decides dependence on order, history and process identity; exact replay. Sampling of inputs; no claim about instruction-level data races (there is no shared mutable state in the compiler packages to race on).",
+        note="Trusted: the std-library overlay (runtime/rand.go, select.go, alg.go) that owns map and select randomness; d2graph.SerializeGraph as the canonical form of a compiled graph."),
+    "C25": dict(engine="pipesim", cat="exploration", ref="5.6",
+        technique="as C08, through layout (dagre, ELK) and SVG rendering with options drawn from the seed; SVG bytes compared across executions, interleavings, seeds and processes",
+        text="Seeded exploration: byte-identical SVG for the same input and options when rendered repeatedly in one process, interleaved with other diagrams and font registrations at stage granularity, under varied map orders, and in a separate process. Sampling, not proof; instruction-level races on the font registry are outside what a serialising simulator can see.",
+        note="Trusted: as C08. Scripts are bounded in size (2.5 KB quick, 20 KB thorough) to bound layout time."),
 }
 
 PENDING = {
- "C08": "simulation target per DESIGN.md §5.5 (pipesim); its check is still under construction and therefore not claimed yet",
- "C25": "simulation target per DESIGN.md §5.6 (pipesim); its check is still under construction and therefore not claimed yet",
 }
 
 NA_COMMON = "pure function of its input: the anchored code is synchronous, single-goroutine, reads no clock and does no fallible I/O, so there is no schedule, time or fault for a simulator to own"
